@@ -1,9 +1,9 @@
-\* quick scenario generation: <= 2 paths, reply classes, coarse interleavings
+\* quick scenario generation: <= 2 paths, reply classes, coarse interleavings (the fail flag outcome comes from gencanonq, gencache, sim4)
 SPECIFICATION Spec
 CONSTANTS
   MinPaths = 1
   MaxPaths = 2
-  Outcomes = {"success", "revert", "panic", "failflag", "stuck"}
+  Outcomes = {"success", "revert", "panic", "stuck"}
   Replies = {"sat_valid", "sat_abstract", "unsat", "unknown", "garbage"}
   Replies2 = {"sat_valid", "unsat"}
   StuckReplies = {"unsat", "unknown"}
